@@ -194,6 +194,8 @@ def check(col, prog, tier, profile, fixture=None):
                     z = ev.args[2]
                     if z[0] == "assoc" and z[2] == "ZERO":
                         resized[bufk] = True
+                elif nmc in ("extend_from_slice", "extend") and cleared.get(bufk):
+                    resized[bufk] = True  # clear() then extend: every element is freshly written, nothing stale survives
                 elif nmc in ("index", "index_mut", "iter", "iter_mut", "deref", "deref_mut", "truncate", "len"):
                     if not (cleared.get(bufk) and resized.get(bufk)):
                         verdict = (ev, bufk)
